@@ -145,6 +145,13 @@ def edits(rng, sd):
     for bad, rule in (("1bad", "name"), ("a b", "name"), ("", "name"), ("ok&#10;", "name-newline")):
         out.append(("wellformed-type-" + rule, F.render_xml(sd).replace("</schema>", "  <sectiontype name='%s'/>\n</schema>" % bad, 1)
                     if False else _inject_first(F.render_xml(sd), "  <sectiontype name='%s'/>\n" % bad)))
+    for bad, rule in (("1bad", "name"), ("a b", "name"), ("", "name"), ("a/b", "name"), ("ok&#10;", "name-newline")):
+        out.append(("wellformed-abstracttype-" + rule, _inject_first(F.render_xml(sd), "  <abstracttype name='%s'/>\n" % bad)))
+    out.append(("unique-type-names-empty-types", _inject_first(F.render_xml(sd), "  <sectiontype name='emptydup9'/>\n  <sectiontype name='EmptyDup9'/>\n")))
+    out.append(("unique-type-names-empty-types", _inject_first(F.render_xml(sd), "  <sectiontype name='emptydup9'/>\n  <abstracttype name='emptydup9'/>\n")))
+    out.append(("unique-type-names-empty-types", _inject_first(F.render_xml(sd), "  <abstracttype name='emptydup9'/>\n  <sectiontype name='emptydup9'/>\n")))
+    out.append(("star-key", _inject_last(F.render_xml(sd), "  <multikey name='*' attribute='starmk9'/>\n")))
+    out.append(("star-key", _inject_last(F.render_xml(sd), "  <multikey name='*' attribute='starmk9' required='yes'/>\n")))
     kt = sd.keytype or "basic-key"
     badkey = {"basic-key": "1bad", "identifier": "a-b", "ipaddr-or-hostname": "-x"}[kt]
     for nm, rule in ((badkey, "key-name"), ("ok9&#10;", "key-name-newline")):
